@@ -625,7 +625,11 @@ impl Kanata {
         self.key_outputs = cfg.key_outputs;
         self.layer_info = cfg.layer_info;
         self.sequences = cfg.sequences;
+        // A sequence in progress refers to the old sequence table, and the override state to keys
+        // overridden under the old override table; neither means anything to the new ones.
+        self.sequence_state = SequenceState::new();
         self.overrides = cfg.overrides;
+        self.override_states = OverrideStates::new();
         self.log_layer_changes =
             get_forced_log_layer_changes().unwrap_or(cfg.options.log_layer_changes);
         self.movemouse_smooth_diagonals = cfg.options.movemouse_smooth_diagonals;
